@@ -1,7 +1,7 @@
 (* C12 - discriminated unions pick exactly the tagged class in any definition order.
    Model: Verif.Discr (state machine), reference notions: Verif.DiscrSpec. *)
 From Coq Require Import List Arith Bool.
-From Verif Require Import Discr DiscrSpec DiscrProofs DiscrKF.
+From Verif Require Import Discr DiscrSpec DiscrProofs DiscrKF DiscrRef.
 Import ListNotations.
 
 (* invariant over arbitrary histories: every registry of every site holds only true bindings
@@ -50,6 +50,27 @@ Proof.
   - exists (Cls [0] [(0, 1)] [] [] true). split; [reflexivity | left; reflexivity].
 Qed.
 Print Assumptions C12_variant_keyerror_refuted.
+
+(* FULL STRENGTH, no hypothesis about nested dispatchers: after ANY history the stateful dispatcher (registries, refills,
+   retries, nested class-level dispatchers of either mode, rejecting classes) answers exactly what the registry-free
+   reference semantics [ref_decode] says for the classes defined so far - provided only that every tag the input carries
+   is carried by at most one eligible class at the dispatcher that reads it (uniq_all; computable: uniq_allb) *)
+Theorem C12_dispatch_ref : forall acc sites pre i inp present,
+  uniq_all sites (defs pre) inp ->
+  snd (step acc sites (final acc sites pre) (Decode i inp present)) = Some (ref_decode acc sites (defs pre) i inp present).
+Proof. exact decode_ref. Qed.
+Print Assumptions C12_dispatch_ref.
+
+Theorem C12_history_independent_full : forall acc sites pre1 pre2 i inp present,
+  defs pre1 = defs pre2 -> uniq_all sites (defs pre1) inp ->
+  snd (step acc sites (final acc sites pre1) (Decode i inp present))
+  = snd (step acc sites (final acc sites pre2) (Decode i inp present)).
+Proof. exact history_independent_ref. Qed.
+Print Assumptions C12_history_independent_full.
+
+Theorem C12_uniq_all_decidable : forall sites ops inp, uniq_allb sites (defs ops) inp = true -> uniq_all sites (defs ops) inp.
+Proof. intros sites ops inp. apply uniq_allb_sound, wf_defs. Qed.
+Print Assumptions C12_uniq_all_decidable.
 
 (* ONE from_dict call of a holder with several discriminated fields = the list of its (site, sub-input) pairs: every
    field is decided by its OWN site - own registry, own key, own tagger function (seq_spec: each field satisfies the
@@ -261,4 +282,13 @@ Example C12_nofield_nonvacuous :
   snd (step acc_req [s_nf] (final acc_req [s_nf] h_nf) (Decode 0 [] [0; 2])) = Some (OInst 2)
   /\ snd (step acc_req [s_nf] (final acc_req [s_nf] h_nf) (Decode 0 [] [0])) = Some (OInst 0)
   /\ snd (step acc_req [s_nf] (final acc_req [s_nf] h_nf) (Decode 0 [] [1])) = Some ONotFound.
+Proof. vm_compute. repeat split. Qed.
+
+(* non-vacuity of C12_dispatch_ref: the mixed nesting above (field -> no-field -> field) satisfies uniq_allb, and the
+   reference semantics gives the nested answers *)
+Example C12_dispatch_ref_nonvacuous :
+  uniq_allb sites_mix (defs h_mix) [(0, Hashable 1)] = true
+  /\ ref_decode acc_req sites_mix (defs h_mix) 0 [(0, Hashable 1)] [8] = OInst 3
+  /\ ref_decode acc_req sites_mix (defs h_mix) 1 [(0, Hashable 2)] [9] = OInst 5
+  /\ ref_decode acc_req sites_mix (defs h_mix) 0 [(0, Hashable 2)] [] = ORej 5.
 Proof. vm_compute. repeat split. Qed.
